@@ -1,7 +1,7 @@
 (* C16 - standard-library 64-bit arithmetic is exact.
    Only statements, [exact], and Print Assumptions. *)
 From Coq Require Import ZArith List Bool Arith Lia String.
-From MV Require Import Base.Field Core.Op Core.Rpo Vm.Pure Vm.PureProps Gen.StdGen Asm.Instr Asm.SpecDefs Asm.U64Instr.
+From MV Require Import Base.Field Core.Op Core.Rpo Vm.Pure Vm.PureProps Gen.StdGen Asm.Instr Asm.SpecDefs Asm.U64Instr Asm.U64More.
 Import ListNotations.
 Open Scope Z_scope.
 Open Scope string_scope.
@@ -65,3 +65,38 @@ Theorem c16_and_value : forall ah al bh bl,
   Z.land (ah * TWO32 + al) (bh * TWO32 + bl) = Z.land ah bh * TWO32 + Z.land al bl.
 Proof. exact land64_limbs. Qed.
 Print Assumptions c16_and_value.
+
+(* multiplication: the low 64 bits, and all 128 bits as four limbs *)
+Theorem c16_wrapping_mul : instr_spec_g (std_ops_of "u64::wrapping_mul") 4 g4 no_pre
+  (fun xs => limbs64 ((A64 xs * B64 xs) mod TWO64)).
+Proof. exact u64_wrapping_mul. Qed.
+Print Assumptions c16_wrapping_mul.
+Theorem c16_overflowing_mul : instr_spec_g (std_ops_of "u64::overflowing_mul") 4 g4 no_pre
+  (fun xs => (limbs64 ((A64 xs * B64 xs) / TWO64) ++ limbs64 ((A64 xs * B64 xs) mod TWO64))%list).
+Proof. exact u64_overflowing_mul. Qed.
+Print Assumptions c16_overflowing_mul.
+Theorem c16_min : instr_spec_g (std_ops_of "u64::min") 4 g4 no_pre (fun xs => limbs64 (Z.min (A64 xs) (B64 xs))).
+Proof. exact u64_min. Qed.
+Print Assumptions c16_min.
+Theorem c16_max : instr_spec_g (std_ops_of "u64::max") 4 g4 no_pre (fun xs => limbs64 (Z.max (A64 xs) (B64 xs))).
+Proof. exact u64_max. Qed.
+Print Assumptions c16_max.
+(* OR and XOR work limb by limb on 32-bit limbs, and the value of the limbs is the operation on the values *)
+Theorem c16_or : instr_spec_g (std_ops_of "u64::or") 4 g4 no_pre
+  (fun xs => [Z.lor (nz xs 0) (nz xs 2); Z.lor (nz xs 1) (nz xs 3)]).
+Proof. exact u64_or. Qed.
+Print Assumptions c16_or.
+Theorem c16_xor : instr_spec_g (std_ops_of "u64::xor") 4 g4 no_pre
+  (fun xs => [Z.lxor (nz xs 0) (nz xs 2); Z.lxor (nz xs 1) (nz xs 3)]).
+Proof. exact u64_xor. Qed.
+Print Assumptions c16_xor.
+Theorem c16_or_value : forall ah al bh bl,
+  0 <= ah < TWO32 -> 0 <= al < TWO32 -> 0 <= bh < TWO32 -> 0 <= bl < TWO32 ->
+  Z.lor (ah * TWO32 + al) (bh * TWO32 + bl) = Z.lor ah bh * TWO32 + Z.lor al bl.
+Proof. exact lor64_limbs. Qed.
+Print Assumptions c16_or_value.
+Theorem c16_xor_value : forall ah al bh bl,
+  0 <= ah < TWO32 -> 0 <= al < TWO32 -> 0 <= bh < TWO32 -> 0 <= bl < TWO32 ->
+  Z.lxor (ah * TWO32 + al) (bh * TWO32 + bl) = Z.lxor ah bh * TWO32 + Z.lxor al bl.
+Proof. exact lxor64_limbs. Qed.
+Print Assumptions c16_xor_value.
